@@ -92,12 +92,14 @@ theorem settle_none (p : Proc) (s : St) (hni : p.nodes.filter (·.kind == .incl)
 
 /-- … and when the scope of the parent token `u` is the first empty one, `u` leaves its sub-process node -/
 theorem settle_return (p : Proc) (s : St) (u : Tok) (par b : String) (hni : p.nodes.filter (·.kind == .incl) = [])
-    (hfind : s.subs.find? (fun t => !liveInScope p s t.node []) = some u) (h : Goes p u.node .sub par b) :
+    (hfind : s.subs.find? (fun t => !liveInScope p s t.node []) = some u) (h : Goes p u.node .sub par b)
+    (hpk : s.parked = []) :
     settle Cfg.ideal p s = ([{ u with node := b }], returned p s u) := by
   obtain ⟨n, fl, f, hn, hid, hk, -, ho, hf, hc, hd⟩ := h
   have e1 : Cfg.ideal.subNeverReturns = false := rfl
   simp only [settle, settleIncl, hni, List.foldl, hfind, e1, Bool.false_eq_true, if_false, hn, ho]
   rw [selectFlows_single p _ u fl f hf hc]
+  rw [nextTurn_idle _ _ _ (by simp [St.recordFlow, hpk])]
   simp [hd, returned]
 
 
@@ -331,7 +333,7 @@ theorem ascend (sh : Shape p d K U S E T) : ∀ (k : Nat), k ≤ d → ∀ (fuel
     have e4 : s1.obs = s.obs ++ [.complete (E k)] := by subst hs1; simp [St.recordTerm, St.emit, ht']
     have hfind := find_last sh k (by omega) s1 e1 e2 c1.parked c1.pg c1.ig
     have hgo : Goes p (tk U k).node .sub (par U k) (up E k) := sh.u_goes k (by omega)
-    have hset := settle_return p s1 (tk U k) _ _ sh.noIncl hfind hgo
+    have hset := settle_return p s1 (tk U k) _ _ sh.noIncl hfind hgo c1.parked
     generalize hs2 : returned p s1 (tk U k) = s2 at hset
     have c2 : Calm s2 := by
       subst hs2
